@@ -22,6 +22,9 @@ inductive Resp where
   | status (code : Nat)    -- a response with a status other than 200
   | cut (k : Nat) (chunked : Bool)   -- 200, `k` body bytes, then the connection is dropped
   | full (chunked : Bool)            -- 200 and the whole blob
+  | eof (k : Nat)                    -- 200 delimited by connection close only (no Content-Length, no
+                                     -- chunked framing: HTTP/1.0 style): `k` body bytes, then the
+                                     -- connection ends, which the client cannot tell from the end of the body
   -- `chunked = false`: the response announces Content-Length = blob length, so a drop after all
   -- the bytes is a complete response; `chunked = true`: no Content-Length (chunked encoding, as a
   -- streaming origin answers), a drop is always before the terminating chunk and is an error
@@ -60,7 +63,17 @@ inductive Out where
 def Resp.delivers (blobLen : Nat) : Resp → Bool
   | .full _ => true
   | .cut k false => blobLen ≤ k
+  | .eof k => blobLen ≤ k
   | _ => false
+
+/-- a close-delimited response is *honest* when it carries the whole blob (a drop inside such a
+body is invisible to the client) -/
+def Resp.honest (blobLen : Nat) : Resp → Prop
+  | .eof k => blobLen ≤ k
+  | _ => True
+
+instance (n : Nat) (r : Resp) : Decidable (r.honest n) := by
+  cases r <;> simp only [Resp.honest] <;> exact inferInstance
 
 /-- `HTTPClient.DownloadBlob`: destination afterwards, error class, bytes written -/
 def request (d : Dst) (blob : List Byte) : Resp → Dst × Out × Nat
@@ -69,6 +82,7 @@ def request (d : Dst) (blob : List Byte) : Resp → Dst × Out × Nat
   | .cut k false => if k < blob.length then (d.write (blob.take k), .other, k) else (d.write blob, .ok, blob.length)
   | .cut k true => (d.write (blob.take k), .other, (blob.take k).length)
   | .full _ => (d.write blob, .ok, blob.length)
+  | .eof k => (d.write (blob.take k), .ok, (blob.take k).length)
 
 structure Cfg where
   guarded : Bool := true
